@@ -21,87 +21,15 @@ impl fmt::Display for Exact {
     }
 }
 
-/// exact result in raw-bit units
 pub fn exact_bin(l: Layout, base: &str, a: u128, b: u128) -> Exact {
-    let za = l.z(a);
-    let zb = l.z(b);
-    let f = l.frac;
-    if zb.is_zero() && !matches!(base, "add" | "sub" | "mul" | "mul_int") {
-        return Exact::DivZero;
+    match vcore::exact::exact_bin(l, base, a, b) {
+        Some(z) => Exact::Val(z),
+        None => Exact::DivZero,
     }
-    Exact::Val(match base {
-        "add" => za.add(zb),
-        "sub" => za.sub(zb),
-        // product rounded toward minus infinity
-        "mul" => za.mul(zb).shr_floor(f),
-        // quotient rounded toward zero
-        "div" => za.shl(f).divrem_trunc(zb).0,
-        "rem" => za.divrem_trunc(zb).1,
-        "rem_euclid" => za.divrem_euclid(zb).1,
-        "div_euclid" => za.divrem_euclid(zb).0.shl(f),
-        // integer right-hand sides: the integer n has the value n * 2^f in raw units
-        "mul_int" => za.mul(zb),
-        "div_int" => za.divrem_trunc(zb).0,
-        "rem_int" => za.divrem_trunc(zb.shl(f)).1,
-        "rem_euclid_int" => za.divrem_euclid(zb.shl(f)).1,
-        "div_euclid_int" => za.divrem_euclid(zb.shl(f)).0.shl(f),
-        _ => panic!("unknown op {}", base),
-    })
 }
 
 pub fn exact_un(l: Layout, base: &str, a: u128) -> Exact {
-    let za = l.z(a);
-    let f = l.frac;
-    let one = Z::pow2(f);
-    let fl = za.shr_floor(f);
-    let frac_part = za.sub(fl.shl(f));
-    let ceil = if frac_part.is_zero() { fl } else { fl.add(Z::one()) };
-    let twice = frac_part.shl(1);
-    use std::cmp::Ordering::*;
-    Exact::Val(match base {
-        "neg" => za.neg(),
-        "abs" => za.abs(),
-        "signum" => {
-            if za.is_zero() {
-                Z::ZERO
-            } else if za.is_neg() {
-                one.neg()
-            } else {
-                one
-            }
-        }
-        "ceil" => ceil.shl(f),
-        "floor" => fl.shl(f),
-        // ties away from zero
-        "round" => match twice.cmp(&one) {
-            Less => fl,
-            Greater => ceil,
-            Equal => {
-                if za.is_neg() {
-                    fl
-                } else {
-                    ceil
-                }
-            }
-        }
-        .shl(f),
-        "round_ties_to_even" => match twice.cmp(&one) {
-            Less => fl,
-            Greater => ceil,
-            Equal => {
-                if fl.is_odd() {
-                    ceil
-                } else {
-                    fl
-                }
-            }
-        }
-        .shl(f),
-        "round_to_zero" => if za.is_neg() { ceil } else { fl }.shl(f),
-        "int" => fl.shl(f),
-        "frac" => frac_part,
-        _ => panic!("unknown op {}", base),
-    })
+    Exact::Val(vcore::exact::exact_un(l, base, a))
 }
 
 /// Expected outcome of a form given the exact result; `None` = the properties say nothing
@@ -146,23 +74,10 @@ pub fn matches_exp(got: &Out, exp: &Out, value_only: bool) -> bool {
 /// Cause-based classifiers of the known findings on the Euclidean division family.
 /// Returns the class name if the operands fall into the cause region of a finding.
 pub fn classify_kf(l: Layout, op: &OpInfo, a: u128, b: u128, _ex: &Exact) -> Option<&'static str> {
-    let za = l.z(a);
-    let zb = l.z(b);
-    if zb.is_zero() {
-        return None;
+    if op.base == "div_euclid" && vcore::exact::div_euclid_truncated_quotient_overflows(l, a, b) {
+        return Some(vcore::exact::KF_DIV_EUCLID);
     }
-    match op.base {
-        "div_euclid" => {
-            // the library derives the quotient from the truncated *fixed-point* quotient
-            // trunc(a*2^f/b); when that intermediate is not representable the result is wrong
-            let t = za.shl(l.frac).divrem_trunc(zb).0;
-            if !l.fits(&t) {
-                return Some("div_euclid-truncated-quotient-overflow");
-            }
-            None
-        }
-        _ => None,
-    }
+    None
 }
 
 /// oracle self-test: Z against native i128 arithmetic on the exhaustive 8-bit cube
